@@ -21,12 +21,22 @@ type Op struct {
 	// Delta: expected row-count change per table of the fault-free run on the
 	// seed state with HookCtl.Audit on (tables not listed: 0). Hand-written.
 	Delta map[string]int
+	// DeltaNoReturning replaces Delta on the dialector without RETURNING, where
+	// a slice model stays empty and the After* hooks (which write audit rows)
+	// therefore do not run per affected row.
+	DeltaNoReturning map[string]int
 	// Unordered: gorm issues the nested statements of this operation in Go map
 	// iteration order (selectColumns in DeleteBeforeAssociations), so driver
 	// calls are identified by content, not by position.
 	Unordered bool
 	// Tags are input-side tags of the operation.
 	Tags []string
+	// Fails: the operation itself must fail without any injected fault — a real
+	// constraint violation (CHECK / UNIQUE) raised by a later row of a multi-row
+	// INSERT, which SQLite reports only while the statement is stepped (with
+	// RETURNING: while the result set is iterated). Expected: an error and the
+	// unchanged database.
+	Fails bool
 }
 
 // IsWrite tells whether the operation belongs to the C05 write set.
@@ -331,7 +341,9 @@ func All() []Op {
 			Run:   func(db *gorm.DB) error { return db.Where("age > ?", 35).Delete(&User{}).Error },
 			Delta: d("users", -2, "audits", 1)},
 	}
+	ops = append(ops, returningOps()...)
 	ops = append(ops, batchOps()...)
+	ops = append(ops, failingOps()...)
 	ops = append(ops, readOps()...)
 	return ops
 }
@@ -565,5 +577,137 @@ func readOps() []Op {
 			Run: func(db *gorm.DB) error {
 				return assoc(db, loadedAlice(), "Company").Unscoped().Replace(&Company{Name: "urc"})
 			}},
+	}
+}
+
+// failingOps: writes that really fail in the database, at the 2nd or a later
+// row of a multi-row INSERT (slice Create, nested has-many / polymorphic /
+// many-to-many children, a later batch), plus a single-row control.
+func failingOps() []Op {
+	f := func(name, kind, text string, run func(db *gorm.DB) error) Op {
+		return Op{Name: name, Kind: kind, Text: text, Run: run, Fails: true}
+	}
+	return []Op{
+		f("fail-single-row-check", "create", `Create(&User{Name:"INVALID"}) (CHECK)`,
+			func(db *gorm.DB) error { return db.Create(&User{Name: "INVALID"}).Error }),
+		f("fail-slice-2nd-row-check", "create", `Create(&[]User{{ok},{Name:"INVALID"},{ok}}) (CHECK at row 2)`,
+			func(db *gorm.DB) error {
+				return db.Create(&[]User{{Name: "ok1"}, {Name: "INVALID"}, {Name: "ok2"}}).Error
+			}),
+		f("fail-slice-ptr-3rd-row-unique", "create", `Create(&[]*Pet{{uniq-b},{c},{uniq-b}}) (UNIQUE at row 3)`,
+			func(db *gorm.DB) error {
+				return db.Create(&[]*Pet{{Name: "uniq-b"}, {Name: "c"}, {Name: "uniq-b"}}).Error
+			}),
+		f("fail-has-many-2nd-child-check", "create", `Create(&User{Pets:{ok},{INVALID}})`,
+			func(db *gorm.DB) error {
+				return db.Create(&User{Name: "u", Pets: []*Pet{{Name: "ok"}, {Name: "INVALID"}}}).Error
+			}),
+		f("fail-has-many-children-collide-unique", "create", `Create(&User{Pets:{uniq-a},{uniq-a}})`,
+			func(db *gorm.DB) error {
+				return db.Create(&User{Name: "u", Pets: []*Pet{{Name: "uniq-a"}, {Name: "uniq-a"}}}).Error
+			}),
+		f("fail-polymorphic-2nd-child-check", "create", `Create(&User{Account, Toys:{ok},{INVALID}})`,
+			func(db *gorm.DB) error {
+				return db.Create(&User{Name: "u", Account: Account{Number: "n"}, Toys: []Toy{{Name: "ok"}, {Name: "INVALID"}}}).Error
+			}),
+		f("fail-m2m-2nd-element-check", "create", `Create(&User{Pets:1, Languages:{it},{zz INVALID}})`,
+			func(db *gorm.DB) error {
+				return db.Create(&User{Name: "u", Pets: []*Pet{{Name: "p"}}, Languages: []Language{{Code: "it", Name: "Italian"}, {Code: "zz", Name: "INVALID"}}}).Error
+			}),
+		f("fail-slice-parents-nested-children-collide", "create", `Create(&[]User{{Pets:{uniq-c}},{Pets:{uniq-c}}})`,
+			func(db *gorm.DB) error {
+				return db.Create(&[]User{{Name: "a", Pets: []*Pet{{Name: "uniq-c"}}}, {Name: "b", Pets: []*Pet{{Name: "uniq-c"}}}}).Error
+			}),
+		f("fail-batches-2nd-batch-2nd-row-check", "batch", `CreateInBatches(&[]User{a,b,c,INVALID}, 2)`,
+			func(db *gorm.DB) error {
+				return db.CreateInBatches(&[]User{{Name: "a"}, {Name: "b"}, {Name: "c"}, {Name: "INVALID"}}, 2).Error
+			}),
+		f("fail-save-existing-new-children-collide", "save", `Save(&User{ID:1,…, Pets:{ID:1},{uniq-d},{uniq-d}})`,
+			func(db *gorm.DB) error {
+				return db.Save(&User{ID: 1, Name: "alice2", Age: 31, CompanyID: up(1), Pets: []*Pet{{ID: 1, UserID: up(1), Name: "rex"}, {Name: "uniq-d"}, {Name: "uniq-d"}}}).Error
+			}),
+		f("fail-updates-2nd-child-check", "update", `Updates(&User{ID:1, Name, Company{new}, Toys:{ok},{INVALID}})`,
+			func(db *gorm.DB) error {
+				return db.Updates(&User{ID: 1, Name: "x", Company: Company{Name: "upco"}, Toys: []Toy{{Name: "ok"}, {Name: "INVALID"}}}).Error
+			}),
+	}
+}
+
+// returningOps: the RETURNING / scan executor branch of every write finisher
+// (on the dialector without RETURNING support the same programs take the exec
+// branch): Delete, Update, Updates, UpdateColumn(s) and Create with an explicit
+// clause.Returning, with and without column list, single row and many rows.
+func returningOps() []Op {
+	cols := func(names ...string) clause.Returning {
+		r := clause.Returning{}
+		for _, n := range names {
+			r.Columns = append(r.Columns, clause.Column{Name: n})
+		}
+		return r
+	}
+	return []Op{
+		{Name: "create-returning-columns", Kind: "create", Text: `Clauses(Returning{id,name,age}).Create(&User{Name, Pets:1})`,
+			Run: func(db *gorm.DB) error {
+				return db.Clauses(cols("id", "name", "age")).Create(&User{Name: "r", Pets: []*Pet{{Name: "rp"}}}).Error
+			},
+			Delta: d("users", 1, "pets", 1, "audits", 2)},
+		{Name: "update-returning-all", Kind: "update", Text: `Model(&User{ID:1}).Clauses(Returning{}).Update("name","x")`,
+			Run: func(db *gorm.DB) error {
+				u := User{ID: 1}
+				return db.Model(&u).Clauses(clause.Returning{}).Update("name", "x").Error
+			},
+			Delta: d("audits", 1)},
+		{Name: "updates-returning-columns-many-rows", Kind: "update", Text: `Model(&[]User{}).Clauses(Returning{name,age}).Where("age > ?",35).Updates(map{age})`,
+			Run: func(db *gorm.DB) error {
+				var us []User
+				return db.Model(&us).Clauses(cols("name", "age")).Where("age > ?", 35).Updates(map[string]interface{}{"age": 99}).Error
+			},
+			Delta: d("audits", 2), DeltaNoReturning: d()},
+		{Name: "updates-returning-hookless-many-rows", Kind: "update", Text: `Model(&[]Office{}).Clauses(Returning{city}).Where("company_id = ?",1).Updates(map{city})`,
+			Run: func(db *gorm.DB) error {
+				var os []Office
+				return db.Model(&os).Clauses(cols("city")).Where("company_id = ?", 1).Updates(map[string]interface{}{"city": "x"}).Error
+			},
+			Delta: d()},
+		{Name: "delete-returning-hookless-many-rows", Kind: "delete", Text: `Clauses(Returning{}).Where("company_id = ?",1).Delete(&[]Office{})`,
+			Run: func(db *gorm.DB) error {
+				var os []Office
+				return db.Clauses(clause.Returning{}).Where("company_id = ?", 1).Delete(&os).Error
+			},
+			Delta: d("offices", -2)},
+		{Name: "updates-returning-model-with-associations", Kind: "update", Text: `Model(&User{ID:1, Company{new}, Toys:1}).Clauses(Returning{}).Updates(User{Name,Age})`,
+			Run: func(db *gorm.DB) error {
+				u := User{ID: 1, Company: Company{Name: "retco"}, Toys: []Toy{{Name: "rt"}}}
+				return db.Model(&u).Clauses(clause.Returning{}).Updates(User{Name: "x", Age: 9}).Error
+			},
+			Delta: d("companies", 1, "toys", 1, "audits", 1)},
+		{Name: "update-column-returning", Kind: "update", Text: `Model(&User{ID:2}).Clauses(Returning{}).UpdateColumn("age",7)`,
+			Run: func(db *gorm.DB) error {
+				u := User{ID: 2}
+				return db.Model(&u).Clauses(clause.Returning{}).UpdateColumn("age", 7).Error
+			},
+			Delta: d()},
+		{Name: "update-columns-returning-columns", Kind: "update", Text: `Model(&User{ID:2}).Clauses(Returning{id,age}).UpdateColumns(map{name,age})`,
+			Run: func(db *gorm.DB) error {
+				u := User{ID: 2}
+				return db.Model(&u).Clauses(cols("id", "age")).UpdateColumns(map[string]interface{}{"name": "q", "age": 1}).Error
+			},
+			Delta: d()},
+		{Name: "delete-returning-all-many-rows", Kind: "delete", Text: `Clauses(Returning{}).Where("age > ?",35).Delete(&[]User{})`,
+			Run: func(db *gorm.DB) error {
+				var us []User
+				return db.Clauses(clause.Returning{}).Where("age > ?", 35).Delete(&us).Error
+			},
+			Delta: d("users", -2, "audits", 2), DeltaNoReturning: d("users", -2)},
+		{Name: "delete-returning-columns", Kind: "delete", Text: `Clauses(Returning{id,name}).Delete(&User{ID:3})`,
+			Run: func(db *gorm.DB) error {
+				return db.Clauses(cols("id", "name")).Delete(&User{ID: 3}).Error
+			},
+			Delta: d("users", -1, "audits", 1)},
+		{Name: "delete-returning-select-pets", Kind: "delete", Text: `Select("Pets").Clauses(Returning{}).Delete(&User{ID:1})`,
+			Run: func(db *gorm.DB) error {
+				return db.Select("Pets").Clauses(clause.Returning{}).Delete(&User{ID: 1}).Error
+			},
+			Delta: d("users", -1, "pets", -2, "audits", 1)},
 	}
 }
